@@ -138,6 +138,14 @@ namespace ip {
 		m_timer.async_wait(aux::make_malloc(std::bind(&basic_resolver::on_lookup, this, _1)));
 	}
 
+	// lookups still queued when the resolver goes away complete with
+	// operation_aborted, as they do on cancel()
+	template<typename Protocol>
+	basic_resolver<Protocol>::~basic_resolver()
+	{
+		cancel();
+	}
+
 	template<typename Protocol>
 	void basic_resolver<Protocol>::cancel()
 	{
